@@ -475,4 +475,7 @@ def run(ctx, progs):
         r3_no_block_metadata(ctx, P)
         r4_rotation_siblings(ctx, P)
         r5_merge_consumes_operands(ctx, P)
+        from . import c08, c01
+        c08.r6_zst_sibling_agreement(ctx, P, R="C16.R6")
+        c01.r3b_is_last_exact(ctx, P, R="C16.R7")
     ctx.config = None
